@@ -297,15 +297,34 @@ func checkUndecodable(c *fw.Ctx, id string, r *rand.Rand) {
 		st = &core.Stream{Dict: core.Dict{"Filter": core.Name("FlateDecode"),
 			"DecodeParms": core.Dict{"Predictor": core.Int(10 + r.Intn(6)), "Columns": core.Int(cols), "Colors": core.Int(colors)}}, Data: filt.Flate(p, 6)}
 	}
+	// Half of the cases put the faulty stage behind a healthy outer stage of a filter chain
+	// (array-form /Filter): the damage is then met in the middle of the chain, not at its start.
+	chained := r.Intn(2) == 0
+	if chained {
+		inner := st.Dict["Filter"]
+		fa := core.Array{core.Name([]string{"ASCIIHexDecode", "AHx"}[r.Intn(2)]), inner}
+		d := core.Dict{"Filter": fa}
+		if dp, ok := st.Dict["DecodeParms"]; ok {
+			d["DecodeParms"] = core.Array{core.Null{}, dp}
+		}
+		st = &core.Stream{Dict: d, Data: filt.Hex(st.Data, filt.HexPolicy{}, nil)}
+		kind += "+chained"
+	}
 	c.Case("neg|"+kind+"|"+hex.EncodeToString(st.Data), true)
 	c.Seen("undecodable_kind", kind)
 	detail := map[string]any{"kind": kind, "dict": dictString(st.Dict), "encoded_hex": hexShort(st.Data)}
 	c.Guard("undecodable", id, detail, func() {
-		got, err := st.Decode()
-		c.Count("undecodable_checked", 1)
-		if err == nil {
-			detail["got_hex"] = hexShort(got)
-			c.Fail("", "undecodable-accepted/"+kind, id, fmt.Sprintf("undecodable data (%s) decoded to %d bytes without error", kind, len(got)), detail)
+		// The same stream object is asked several times (Decode three times; Decoded() is a raw-data stub in this tree and is not the decoder): an
+		// undecodable stream stays undecodable, whatever was asked of it before.
+		for call, f := range []func() ([]byte, error){st.Decode, st.Decode, st.Decode} {
+			got, err := f()
+			c.Count("undecodable_checked", 1)
+			if err == nil {
+				detail["got_hex"] = hexShort(got)
+				detail["call_no"] = call + 1
+				c.Fail("", "undecodable-accepted/"+kind, id, fmt.Sprintf("undecodable data (%s) decoded to %d bytes without error on call %d of the same stream", kind, len(got), call+1), detail)
+				return
+			}
 		}
 	})
 }
